@@ -334,6 +334,75 @@ func cfPoolFuncs(fset *token.FileSet, repo string) ([][2]string, error) {
 	return out, nil
 }
 
+
+// ---- limit.Reader.Read: is every return after the read below dominated by a WaitN call?
+
+func cfHasCall(n ast.Node, method string) bool {
+	found := false
+	ast.Inspect(n, func(x ast.Node) bool {
+		if c, ok := x.(*ast.CallExpr); ok {
+			if sel, ok := c.Fun.(*ast.SelectorExpr); ok && sel.Sel.Name == method {
+				found = true
+			}
+		}
+		return !found
+	})
+	return found
+}
+
+// a statement list certainly runs WaitN: one of its top-level statements (or the init of a top-level `if`) calls it
+func cfRunsWaitN(list []ast.Stmt) bool {
+	for _, st := range list {
+		switch t := st.(type) {
+		case *ast.AssignStmt, *ast.ExprStmt:
+			if cfHasCall(t, "WaitN") {
+				return true
+			}
+		case *ast.IfStmt:
+			if t.Init != nil && cfHasCall(t.Init, "WaitN") {
+				return true
+			}
+		}
+	}
+	return false
+}
+
+// walks a statement list in source order; seen = the read below has happened, charged = WaitN has certainly run on
+// this path (a block guarded by `n > 0` that runs WaitN counts: it runs whenever there are bytes to charge).
+// Every return statement after the read is reported with `charged`.
+func cfReaderReturns(fset *token.FileSet, list []ast.Stmt, seen, charged bool, out *[][2]string) (bool, bool) {
+	for _, st := range list {
+		switch t := st.(type) {
+		case *ast.ReturnStmt:
+			if seen {
+				*out = append(*out, [2]string{strconv.Itoa(fset.Position(t.Pos()).Line), strconv.FormatBool(charged)})
+			}
+		case *ast.IfStmt:
+			c := charged
+			if t.Init != nil && cfHasCall(t.Init, "WaitN") {
+				c, charged = true, true
+			}
+			cfReaderReturns(fset, t.Body.List, seen, c, out)
+			if els, ok := t.Else.(*ast.BlockStmt); ok {
+				cfReaderReturns(fset, els.List, seen, c, out)
+			}
+			if cfSrc(fset, t.Cond) == "n > 0" && t.Else == nil && cfRunsWaitN(t.Body.List) {
+				charged = true
+			}
+		case *ast.BlockStmt:
+			seen, charged = cfReaderReturns(fset, t.List, seen, charged, out)
+		default:
+			if cfHasCall(st, "WaitN") {
+				charged = true
+			}
+			if as, ok := st.(*ast.AssignStmt); ok && cfHasCall(as, "Read") && !cfHasCall(as, "WaitN") {
+				seen = true
+			}
+		}
+	}
+	return seen, charged
+}
+
 func genConnFacts(repo, out string) error {
 	fset := token.NewFileSet()
 	vf, err := parser.ParseFile(fset, filepath.Join(repo, "pkg", "util", "vhost", "vhost.go"), nil, 0)
@@ -362,10 +431,23 @@ func genConnFacts(repo, out string) error {
 		return fail("no function binds the recycle function of libio.WithCompressionFromPool")
 	}
 
+	rf, err := parser.ParseFile(fset, filepath.Join(repo, "pkg", "util", "limit", "reader.go"), nil, 0)
+	if err != nil {
+		return err
+	}
+	rread := cfMethod(rf, "Reader", "Read")
+	if rread == nil || rread.Body == nil {
+		return fail("pkg/util/limit/reader.go: (*Reader).Read not found")
+	}
+	var rets [][2]string
+	if seen, _ := cfReaderReturns(fset, rread.Body.List, false, false, &rets); !seen {
+		return fail("pkg/util/limit/reader.go: (*Reader).Read does not read from the reader below")
+	}
+
 	q := strconv.Quote
 	var w bytes.Buffer
 	w.WriteString("/- GENERATED by translate/gen_connfacts.go from pkg/util/vhost/vhost.go (Muxer.handle), pkg/util/net/conn.go\n" +
-		"   (wrapQuicStream.Close) and every caller of libio.WithCompressionFromPool. Do not edit. -/\n")
+		"   (wrapQuicStream.Close), pkg/util/limit/reader.go (Reader.Read) and every caller of libio.WithCompressionFromPool. Do not edit. -/\n")
 	w.WriteString("namespace Frp.Gen.ConnFacts\n\n")
 	w.WriteString("/-- (receiver, method, argument, block depth) of every deadline call in (*Muxer).handle, source order -/\n")
 	w.WriteString("def muxerHandleDeadlines : List (String × String × String × Nat) :=\n  [")
@@ -408,6 +490,16 @@ func genConnFacts(repo, out string) error {
 			w.WriteString(",\n   ")
 		}
 		fmt.Fprintf(&w, "(%s, %s)", q(p[0]), p[1])
+	}
+	w.WriteString("]\n\n")
+	w.WriteString("/-- (line, a WaitN call certainly ran before — one guarded by `n > 0` counts) of every return statement of\n" +
+		"    (*limit.Reader).Read that follows the read from the reader below, source order -/\n")
+	w.WriteString("def readerReturnsCharged : List (Nat × Bool) :=\n  [")
+	for i, r := range rets {
+		if i > 0 {
+			w.WriteString(", ")
+		}
+		fmt.Fprintf(&w, "(%s, %s)", r[0], r[1])
 	}
 	w.WriteString("]\n\nend Frp.Gen.ConnFacts\n")
 	return os.WriteFile(filepath.Join(out, "ConnFacts.lean"), w.Bytes(), 0o644)
